@@ -108,6 +108,15 @@ func FuzzZoneParser(f *testing.F) {
 		if pbt.Known(kGenQuadratic) && longGenerate(c.Files) {
 			return
 		}
+		if generateExpansion(string(data)) > 4*maxExpansion {
+			return // cost cap: minutes per input
+		}
+		if pbt.Known(kGenEscape) && textHasEscapeChain(c.Files) {
+			return
+		}
+		if pbt.Known(kGenRequote) && textRequotesNewline(c.Files) {
+			return
+		}
 		_, viol := runParser(c.Files, c.Cfg, exerciseRecord)
 		if viol != nil {
 			writeFuzzViolation("fuzz-zone", c, viol)
@@ -132,13 +141,34 @@ func checkNewRR(c newRRCase) error {
 	if pbt.Known(kGenQuadratic) && longGenerate(map[string]string{"": c.Text}) {
 		return nil
 	}
+	if pbt.Known(kGenEscape) && textHasEscapeChain(map[string]string{"": c.Text}) {
+		return nil
+	}
+	if generateExpansion(c.Text) > 4*maxExpansion {
+		return nil // cost cap: minutes per input
+	}
+	err, resource := newRROnce(c)
+	// the allocation counter is that of the whole process: a reading above the bound is measured
+	// again (same input) after a garbage collection and counts only if it shows every time
+	for i := 0; i < confirmRuns && err != nil && resource; i++ {
+		runtime.GC()
+		err, resource = newRROnce(c)
+	}
+	return err
+}
+
+// newRROnce is one NewRR call under the oracle; resource tells that the violation is a reading of
+// the process-wide allocation counter above its bound.
+func newRROnce(c newRRCase) (error, bool) {
 	type res struct {
 		rr    dns.RR
 		err   error
 		alloc uint64
+		stack int64
 		pan   error
 	}
 	done := make(chan res, 1)
+	timer := time.NewTimer(watchdog)
 	go func() {
 		var r res
 		defer func() {
@@ -157,36 +187,48 @@ func checkNewRR(c newRRCase) error {
 		}
 		runtime.ReadMemStats(&ms2)
 		r.alloc = ms2.TotalAlloc - ms1.TotalAlloc
+		r.stack = int64(ms2.StackInuse) - int64(ms1.StackInuse)
 	}()
+	// (nothing that allocates runs on this goroutine while the call is measured)
 	var r res
 	select {
 	case r = <-done:
-	case <-time.After(watchdog):
-		hangSeen = true
-		buf := make([]byte, 1<<20)
-		buf = buf[:runtime.Stack(buf, true)]
-		return fmt.Errorf("NewRR did not finish within %v:\n%s", watchdog, buf)
+	case <-timer.C:
+		// slow or hung? the same call gets three more periods
+		timer.Reset(time.Duration(confirmRuns) * watchdog)
+		select {
+		case r = <-done:
+		case <-timer.C:
+			hangSeen = true
+			buf := make([]byte, 1<<20)
+			buf = buf[:runtime.Stack(buf, true)]
+			return fmt.Errorf("NewRR did not finish within %v:\n%s", time.Duration(confirmRuns+1)*watchdog, buf), false
+		}
 	}
+	timer.Stop()
 	if r.pan != nil {
-		return r.pan
+		return r.pan, false
 	}
 	if r.rr != nil && r.err != nil {
-		return fmt.Errorf("NewRR returned a record and the error %v", r.err)
+		return fmt.Errorf("NewRR returned a record and the error %v", r.err), false
 	}
 	if r.err != nil {
 		var pe *dns.ParseError
 		if !errors.As(r.err, &pe) {
-			return fmt.Errorf("NewRR error is a %T, not a *dns.ParseError: %v", r.err, r.err)
+			return fmt.Errorf("NewRR error is a %T, not a *dns.ParseError: %v", r.err, r.err), false
 		}
 		if !lineRe.MatchString(r.err.Error()) {
-			return fmt.Errorf("NewRR error carries no position: %q", r.err)
+			return fmt.Errorf("NewRR error carries no position: %q", r.err), false
 		}
 	}
 	bound := uint64(allocK0) + uint64(allocC)*uint64(len(c.Text)) + 2*(uint64(allocR0)+uint64(allocRL)*uint64(min(len(c.Text), 4096)))
 	if r.alloc > bound {
-		return fmt.Errorf("NewRR allocated %d octets for %d octets of input (bound %d)", r.alloc, len(c.Text), bound)
+		return fmt.Errorf("NewRR allocated %d octets for %d octets of input (bound %d; measured %d times)", r.alloc, len(c.Text), bound, confirmRuns+1), true
 	}
-	return nil
+	if r.stack > stackBound {
+		return fmt.Errorf("the goroutine stacks grew by %d octets during NewRR of %d octets (bound %d; measured %d times): the parser recurses with its input", r.stack, len(c.Text), stackBound, confirmRuns+1), true
+	}
+	return nil, false
 }
 
 func FuzzNewRR(f *testing.F) {
